@@ -27,6 +27,9 @@ META = {
 }
 
 
+KEY_FLUSH_WAR = "dtd-flush-overwrites-pending-reader"
+
+
 def last_writer_remote(p, nranks):
     """Evidence: data whose last inserted writer runs on another process than the owner."""
     n = 0
@@ -70,6 +73,22 @@ def run(ctx):
         ex = base.run_batch(ctx, exe, lines, "f%d" % nr, threads=t, sched=s, nranks=nr, timeout=900,
                             env={"VERIF_ALARM": "40"})
         (single if nr == 1 else multi).extend(ex)
+    # (found by the TLC-generated programs, seed 3)  d2 is owned by rank 1; task 9 (rank 1) reads d2 and must wait for d4
+    # from rank 0, task 10 (rank 0, inserted after 9) rewrites d2: when its value is flushed back before 9 has run, the
+    # flush task copies it over the owner's copy that 9 is going to read (1-2 % of the runs): repeated runs.
+    mk = lambda r, *ps: {"accs": [{"d": d, "m": m} for d, m in ps], "rank": r}
+    fw = {"nd": 4, "tasks": [mk(1, (4, "R"), (3, "W"), (2, "RW")), mk(1, (1, "W"), (3, "R"), (2, "R")),
+                             mk(0, (4, "R"), (1, "W"), (3, "RW")), mk(1, (1, "RW"), (2, "W"), (3, "RW")),
+                             mk(1, (1, "W"), (3, "R"), (2, "R")), mk(0, (3, "RW"), (4, "W")),
+                             mk(1, (1, "R"), (3, "W"), (2, "W")), mk(0, (1, "R"), (3, "R"), (4, "W")),
+                             mk(1, (1, "R"), (4, "W"), (2, "R")), mk(0, (2, "RW"), (3, "RW"))]}
+    fx = base.run_batch(ctx, exe, [base.prog_line(fw, sp=(20, 120))] * (200 if ctx.quick else 1500), "fw", threads=3,
+                        sched="pbq", nranks=2, timeout=900, env={"VERIF_ALARM": "40"})
+    ctx.extra["executions_flush_vs_pending_reader"] = len(fx)
+    base.validate(ctx, "SeqTraceValues", fx, base.merged_events,
+                  "a task read a value written by a task inserted after it: the flushed value of the later remote writer was "
+                  "copied over the owner's copy before the earlier local reader had run",
+                  key=lambda x, f: KEY_FLUSH_WAR if (f.describe().get("next_event") or {}).get("e") == "Start" else None)
     ctx.sample({"program": single[0].line if single else multi[0].line})
     base.validate(ctx, "SeqTrace", single, base.single_events,
                   "after flush + wait the owner copy is not the value of the last inserted writer (one process)")
